@@ -5,7 +5,7 @@
    dot, is not dot-dot and has no slash; resolve = textbook stack resolution (dot-dot pops, never above the root);
    handle = http_api.cpp path pipeline (cut at the question mark, urldecode, C string) followed by
    file_server::main, over abstract OS functions canonical (realpath), file_mode (stat), dir_entries, can_open. *)
-From CppcmsV Require Import Base.Tac Base.CSem Base.Sweep C15.Defs C13.Defs C13.ProofsNorm C13.ProofsRoot C13.ProofsMain C13.ProofsIp C13.PageDefs C13.ProofsList C13.ProofsRedir C13.ProofsReal C13.Link gen.Gen_fileserver.
+From CppcmsV Require Import Base.Tac Base.CSem Base.Sweep C15.Defs C13.Defs C13.ProofsNorm C13.ProofsRoot C13.ProofsMain C13.ProofsIp C13.PageDefs C13.ProofsList C13.ProofsRedir C13.ProofsReal C13.ProofsKind C13.Link gen.Gen_fileserver gen.Gen_C13_mode.
 Local Open Scope N_scope.
 
 (* 1. normalize_safe: for EVERY byte string the result of file_server::normalize_path is slash-rooted, consists of
@@ -132,6 +132,47 @@ Theorem main_streams_only_checked_regular_files : forall canonical file_mode dir
   has_bit (file_mode (cstr p)) S_IFREG = true /\ can_open (cstr p) = true.
 Proof. exact main_serves. Qed.
 Print Assumptions main_streams_only_checked_regular_files.
+(* 6b. "the contents of a REGULAR file", for every kind of object.  main tests mode BITS: (s & S_IFDIR) holds for directories,
+       block devices and sockets, (s & S_IFREG) for regular files, symbolic links (never reported by stat) and sockets; a FIFO, a
+       character device and a failed stat (mode 0) pass neither *)
+Theorem mode_tests_by_file_type : forall m, In (ftype m) posix_types ->
+  (has_bit m S_IFDIR = true <-> In (ftype m) [S_IFDIR; S_IFBLK; S_IFSOCK]) /\
+  (has_bit m S_IFREG = true <-> In (ftype m) [S_IFREG; S_IFLNK; S_IFSOCK]).
+Proof. exact mode_tests_by_type. Qed.
+Print Assumptions mode_tests_by_file_type.
+(* whatever the checked path names: if main streams it, the object is - among the seven POSIX types - a regular file, a symbolic
+   link or a socket (stat follows links; open() refuses sockets with ENXIO: OS facts, exercised by the harness), and ... *)
+Theorem main_streams_only_regular_type : forall canonical file_mode dir_entries can_open cfg f p e,
+  fs_main canonical file_mode dir_entries can_open cfg f = RFile p e ->
+  In (ftype (file_mode (cstr p))) posix_types ->
+  In (ftype (file_mode (cstr p))) [S_IFREG; S_IFLNK; S_IFSOCK] /\ can_open (cstr p) = true.
+Proof. exact main_streams_by_type. Qed.
+Print Assumptions main_streams_only_regular_type.
+(* ... never an object whose stat failed, a FIFO, a character device, a directory or a block device: open() is not reached for them *)
+Theorem main_never_opens_fifo_device_or_directory : forall canonical file_mode dir_entries can_open cfg f p e,
+  fs_main canonical file_mode dir_entries can_open cfg f = RFile p e ->
+  file_mode (cstr p) <> 0 /\ ftype (file_mode (cstr p)) <> S_IFIFO /\ ftype (file_mode (cstr p)) <> S_IFCHR /\
+  ftype (file_mode (cstr p)) <> S_IFDIR /\ ftype (file_mode (cstr p)) <> S_IFBLK.
+Proof. exact main_never_streams_fifo_or_chardev. Qed.
+Print Assumptions main_never_opens_fifo_device_or_directory.
+(* in the name-space model, for EVERY name space and every kind of node (directory, regular, link, other with any mode value):
+   what is streamed is a regular-file node *)
+Theorem model_streams_only_regular_file_nodes : forall fs cfg target p e,
+  fs_handle fs cfg target = RFile p e -> exists id, fs_node fs (cstr p) = Some (NReg id).
+Proof. exact model_streams_only_regular_nodes. Qed.
+Print Assumptions model_streams_only_regular_file_nodes.
+(* /r/p is a FIFO (mode 010644), /r/c a character device (020666), /r/s a socket (0140755), /r/x/i a socket named like the index:
+   all 404; the socket passes the bit test and is refused by open *)
+Definition kind_fs : fsdesc :=
+  [ (rev [47;114], NDir); (rev [47;114;47;102], NReg 1); (rev [47;114;47;112], NOther 4516); (rev [47;114;47;99], NOther 8630);
+    (rev [47;114;47;115], NOther 49645); (rev [47;114;47;120], NDir); (rev [47;114;47;120;47;105], NOther 49645) ].
+Example kinds_nonvacuous :
+  let cfg := mkcfg [47;114] [] false false [105] in
+  fs_handle kind_fs cfg [47;102] = RFile [47;114;47;102] [] /\
+  fs_handle kind_fs cfg [47;112] = R404 /\ fs_handle kind_fs cfg [47;99] = R404 /\ fs_handle kind_fs cfg [47;115] = R404 /\
+  fs_handle kind_fs cfg [47;120;47] = R404 /\
+  has_bit 49645 S_IFREG = true /\ has_bit 49645 S_IFDIR = true /\ has_bit 4516 S_IFREG = false /\ has_bit 8630 S_IFREG = false.
+Proof. cbv zeta. repeat split; vm_compute; reflexivity. Qed.
 Theorem main_redirects_only_for_checked_directories : forall canonical file_mode dir_entries can_open cfg f loc,
   fs_main canonical file_mode dir_entries can_open cfg f = RRedirect loc ->
   loc = safe_location f /\ last f 0 <> slash /\
@@ -357,6 +398,13 @@ Example mime_key_nonvacuous :
   ext_of [47;114;47;102] = [].
 Proof. repeat split; vm_compute; reflexivity. Qed.
 
+(* 8b. tie: the st_mode bit values of the platform header (regenerated through harness/C13_mode_tu.cpp) are the model's *)
+Theorem tie_mode_bits :
+  g_c13_S_IFMT = Z.of_N S_IFMT /\ g_c13_S_IFDIR = Z.of_N S_IFDIR /\ g_c13_S_IFREG = Z.of_N S_IFREG /\
+  g_c13_S_IFIFO = Z.of_N S_IFIFO /\ g_c13_S_IFCHR = Z.of_N S_IFCHR /\ g_c13_S_IFBLK = Z.of_N S_IFBLK /\
+  g_c13_S_IFLNK = Z.of_N S_IFLNK /\ g_c13_S_IFSOCK = Z.of_N S_IFSOCK.
+Proof. exact link_mode_bits. Qed.
+Print Assumptions tie_mode_bits.
 (* 8. tie: the separator test regenerated from the current source is the model's (c =? slash) *)
 Theorem tie_is_directory_separator : forall b, b < 256 -> g_is_directory_separator (wraps 8 (Z.of_N b)) = (b =? slash).
 Proof. exact link_is_directory_separator. Qed.
